@@ -38,6 +38,13 @@ def handle : List String → Option String
     let m ← (if mode = "arithmetic" then some AvgMode.arithmetic else if mode = "harmonic" then some AvgMode.harmonic else none)
     let q : Nat → Nat → Rat := fun a c => (qs.getD a []).getD c 0
     pure (showRats ((List.range (numFaces shape)).map (cellToFace shape m q)))
+  | "c2fq" :: mode :: kind :: rest => do
+    -- full cell array: Fortran-flattened cell index, trailing component axes in C order
+    let ((shape, arr), _) ← (do let s ← P.list P.nat; let q ← P.list P.rat; pure (s, q)).run rest
+    let m ← (if mode = "arithmetic" then some AvgMode.arithmetic else if mode = "harmonic" then some AvgMode.harmonic else none)
+    let k ← (if kind = "scalar" then some QKind.scalar else if kind = "vector" then some QKind.vector
+             else if kind = "tensor" then some QKind.tensor else none)
+    pure (showRats ((List.range (numFaces shape)).map (cellToFaceQ shape m k (fn arr))))
   | "tang" :: rest => do
     let ((shape, u), _) ← (do let s ← P.list P.nat; let u ← P.list P.rat; pure (s, u)).run rest
     pure (sep ((List.range (shape.length - 1)).map fun i => showRats ((List.range (numFaces shape)).map (tang shape (fn u) i))))
